@@ -101,7 +101,9 @@ class Parser(BaseParser):
 
                     for end in ends:
                         # Carry over any items still in the scan buffer, to past the end of the ignored items.
-                        delayed_matches[end].extend([(item, i, None) for item in to_scan ])
+                        # (an empty entry would count as a pending match, and hold back the UnexpectedCharacters error)
+                        if to_scan:
+                            delayed_matches[end].extend([(item, i, None) for item in to_scan ])
 
                         # If we're ignoring up to the end of the file, # carry over the start symbol if it already completed.
                         if roots:
